@@ -233,8 +233,8 @@ func (u *Unit) binop(st *State, fr *Frame, in *ssa.BinOp) Val {
 				return u.strLit(a.Lit + b.Lit)
 			}
 			al := u.name(a.Len, "sl")
-			j := Const("j", SInt)
-			arr := u.defArr("S", "j", Ite(Lt(j, al), Select(a.Arr, j), Select(b.Arr, Sub(j, al))))
+			aA, bA := a.Arr, b.Arr
+			arr := MkArr(func(j *Term) *Term { return Ite(Lt(j, al), Select(aA, j), Select(bA, Sub(j, al))) })
 			return StrV{Arr: arr, Len: Add(al, b.Len)}
 		default:
 			// ordering comparisons on strings: not modelled
@@ -422,8 +422,8 @@ func (u *Unit) convert(st *State, fr *Frame, in *ssa.Convert) Val {
 				return StrV{Arr: r.C, Len: s.Len}
 			}
 			off := u.name(s.Off, "o")
-			j := Const("j", SInt)
-			return StrV{Arr: u.defArr("S", "j", Select(r.C, Add(off, j))), Len: s.Len}
+			rC := r.C
+			return StrV{Arr: MkArr(func(j *Term) *Term { return Select(rC, Add(off, j)) }), Len: s.Len}
 		}
 		if isIntKind(from) {
 			l := u.newInt("runelen")
@@ -471,7 +471,8 @@ func (u *Unit) promote(st *State, p PtrV, n int64) *Term {
 	var r *Region
 	if p.Cell.Old {
 		r = u.inputRegion(st, "arr_"+p.Cell.Name)
-		u.assume(Eq(r.C, av.Arr))
+		u.setContents(st, r.Blk.S, av.Arr)
+		r = st.regions[r.Blk.S]
 	} else {
 		r = &Region{Blk: u.allocID(st), C: av.Arr, Fresh: true}
 		u.addRegion(st, r)
@@ -508,8 +509,12 @@ func (u *Unit) indexAddr(st *State, fr *Frame, in *ssa.IndexAddr) Val {
 			return PtrV{Nil: TFalse, Blk: xv.Blk, Idx: Add(xv.Off, idx), Elem: xv.Elem}
 		}
 		if !idx.IsInt {
-			u.limit("symbolic index into a non-byte slice in %s", FuncName(fr.fn))
-			return PtrV{Nil: TFalse, Cell: u.newCell(xv.Elem, true, false, "symidx"), Elem: xv.Elem}
+			// element at a symbolic position: an unconstrained element cached
+			// under the index term (sound for reads; a store through it makes
+			// the list content unknown, see store)
+			c := u.keyedCell(fmt.Sprintf("list%d[%d+%s]", xv.List.ID, xv.LOff, idx.S), xv.Elem, true, xv.List.Sym)
+			u.symIdxCells[c.ID] = xv.List
+			return PtrV{Nil: TFalse, Cell: c, Elem: xv.Elem}
 		}
 		return PtrV{Nil: TFalse, Cell: u.listCell(xv.List, xv.LOff+int(idx.I.Int64())), Elem: xv.Elem}
 	case PtrV:
@@ -601,8 +606,8 @@ func (u *Unit) sliceOp(st *State, fr *Frame, in *ssa.Slice) Val {
 			return u.strLit(xv.Lit[lo.I.Int64():hi.I.Int64()])
 		}
 		lon := u.name(lo, "lo")
-		j := Const("j", SInt)
-		return StrV{Arr: u.defArr("S", "j", Select(xv.Arr, Add(lon, j))), Len: Sub(hi, lo)}
+		xA := xv.Arr
+		return StrV{Arr: MkArr(func(j *Term) *Term { return Select(xA, Add(lon, j)) }), Len: Sub(hi, lo)}
 	case PtrV:
 		at := in.X.Type().Underlying().(*types.Pointer).Elem().Underlying().(*types.Array)
 		n := at.Len()
@@ -615,7 +620,7 @@ func (u *Unit) sliceOp(st *State, fr *Frame, in *ssa.Slice) Val {
 			// compiler-built argument array (varargs) or a local array: snapshot
 			// the elements into a list (the array is not written afterwards in
 			// the varargs pattern; other uses are reported)
-			if al, ok := in.X.(*ssa.Alloc); !ok || al.Comment != "varargs" {
+			if al, ok := in.X.(*ssa.Alloc); !ok || (al.Comment != "varargs" && al.Comment != "slicelit") {
 				u.limit("slice of a non-byte array in %s", FuncName(fr.fn))
 			}
 			cur := u.loadPath(st, xv)
